@@ -352,7 +352,7 @@ def g_deltas(C):
                 d = const_defs(pc)
                 return cexpr(item, mm.group(1), d), cexpr(item, mm.group(2), d)
             return pairs(item, mm.group(1)), pairs(item, mm.group(2))
-        return soft(item, name, go)
+        return soft(item, {"en_passant_row": "ep_row", "first_row_delta": "first_delta"}.get(name, name), go)
 
     first_row = two("piece.pawn.first_row", "first_row")
     last_row = two("piece.pawn.last_row", "last_row")
@@ -482,8 +482,13 @@ def g_constants(C):
     m = need("uci.FRACTION", r"const FRACTION_OF_TOTAL_TIME: f64 = ([\d._]+);", uci)
     fraction = m.group(1).replace("_", "")
     latency = cexpr("uci.LATENCY", "LATENCY_MS_COMPENSATE", udefs)
-    m = need("uci.cut", r"time\.saturating_sub\(Duration::from_millis\(([^)]+)\)\)", uci)
-    cut = cexpr("uci.cut", m.group(1), udefs)
+    # the trim of the timer's sleep: a Duration subtracted from a Duration, inline or through a named Duration constant
+    dconst = dict(re.findall(r"const\s+(\w+)\s*:\s*Duration\s*=\s*Duration::from_millis\(([^)]+)\)\s*;", uci))
+    cands = re.findall(r"\.saturating_sub\(\s*(?:Duration::from_millis\(([^)]+)\)|([A-Z_][A-Z0-9_]*))\s*\)", uci)
+    vals = [a if a else dconst.get(b) for a, b in cands if a or b in dconst]
+    if len(vals) != 1:
+        raise ExtractError("uci.cut", f"{len(vals)} Duration trims found")
+    cut = cexpr("uci.cut", vals[0], udefs)
     tt_cap = get_probe()["TT_CAPACITY"]
 
     def mate_of(name, pat):
